@@ -155,6 +155,11 @@ def stepDial (op impl : String) : StepOut := Id.run do
           fails := fails ++ [("first_dial_succeeds", "-", s!"base={base} der={der} srv={srv} faults={faults}: {implOut}")]
         else
           fails := fails ++ [("redial_succeeds", if zeroReuse && timeouts.contains implOut then "zero_scid_transport_reuse" else "-", s!"dial {i} on {if fresh then "a fresh" else "the same"} spec value base={base} der={der} srv={srv} faults={faults}: {implOut}")]
+      -- the two specific ways a reused spec value used to fail (fixed by 4b5b79e), reported under their own names
+      if wf && implOut.endsWith ":iscid_mismatch" then
+        fails := fails ++ [("advertises_own_scid", "-", s!"dial {i} ({draws.length} attempt(s)): the ClientHello advertises initial_source_connection_id {(getKV t "adv").getD "?"}, the long header carries {fmtConnID draws.getLast?}")]
+      if wf && implOut.endsWith ":tls_internal" then
+        fails := fails ++ [("holds_private_keys", "-", s!"dial {i} ({draws.length} attempt(s)) on {if fresh then "a fresh" else "the same"} spec value: local TLS internal error (key shares sent without their private keys)")]
       if implOut == "ok" then
         let up := (getKV t "up").getD ""; let down := (getKV t "down").getD ""
         if !(dataOK up && dataOK down) then
